@@ -633,7 +633,8 @@ theorem top_no_ub_from_start (start : XOp) (hstart : start.isNew = true) (ops : 
     number of references the application holds; (c) a destroyed instance
     has no watch left and nobody refers to it; (d) a terminal the application still refers to has not been freed;
     (e) the lower layers' invariant holds with the instance's two references accounted for: the terminal's count is
-    the application's references plus the instance's plus one for a live root window. -/
+    the application's references plus the instance's plus one for a live root window, and every live window's count
+    is the application's references plus - for the root window - the instance's. -/
 theorem top_lifetime_inv (start : XOp) (hstart : start.isNew = true) (ops : List XOp) (h : TopHistory ops) :
     ∃ top, xrunOps extractedTop {} (start :: ops) = .ok top ∧
       (∀ b ∈ top.tbinds, b.isApp = false → rootAlive top.st = true) ∧
@@ -643,10 +644,12 @@ theorem top_lifetime_inv (start : XOp) (hstart : start.isNew = true) (ops : List
       (top.st.term.freed = true → top.st.term.appRefs = 0) ∧
       (top.st.term.freed = false → (∃ r, LiveW top.st.tree 0 r) →
         top.st.term.refcount = (top.st.term.appRefs : Int) + (top.ghost.term : Int) + 1) ∧
+      (∀ (i : Nat) (w : WinTree.Win), LiveW top.st.tree i w →
+        w.refcount = ((getX top.st i).appRefs : Int) + (top.ghost.win i : Int)) ∧
       SwOk top := by
   obtain ⟨top, hr, T⟩ := top_no_ub_from_start start hstart ops h
   obtain ⟨f1, f2, f3, f4⟩ := T.facts
-  exact ⟨top, hr, f1, f2, f3, f4, fun hf hl => T.f.inv.term_held hf (.inl hl), T.sw⟩
+  exact ⟨top, hr, f1, f2, f3, f4, fun hf hl => T.f.inv.term_held hf (.inl hl), T.exact, T.sw⟩
 
 /-- **all_released for the toplevel**: after any history of this layer, once the application has dropped every reference
     it holds (`end`: windows from the highest handle down to the root window, pens, strings, buffers, the terminal; then
